@@ -175,7 +175,11 @@ def param_desc(draw):
     """Descriptor of a parameter in one direction, resolved against the built object's own knot vector:
        ["in", span_selector, num/64] strictly inside a non-empty span; ["knot", selector] on an interior knot
        (falls back to 'in' when there is none); ["start"]; ["end"]."""
-    k = draw(st.sampled_from(["in", "in", "knot", "knot", "start", "end", "other", "near"]))
+    k = draw(st.sampled_from(["in", "in", "knot", "knot", "start", "end", "other", "near", "decimal"]))
+    if k == "decimal":
+        # not a dyadic rational: (span start) + m/7000 of the span width, preferably in the first span (small values, which the
+        # library's 18-decimal knot rounding does not reproduce exactly)
+        return ["decimal", draw(st.integers(0, 63)), draw(st.integers(1, 63)) / 64.0, draw(st.integers(1, 120))]
     if k == "near":
         # a parameter 2^-24 (6e-8) below or above an interior knot: a distinct, valid parameter right next to a span boundary
         return ["near", draw(st.integers(0, 63)), draw(st.integers(1, 63)) / 64.0, draw(st.sampled_from([-1, 1])),
